@@ -91,10 +91,21 @@ def classify(step):
     grouping = k == "dist" and int(ck.get("flags", "0")) & GROUP_FLAG
     zeroed = k == "group" and " gp=0" in res and "inserted" in res
     if wf_bad or chk_bad:
-        if grouping and "object-vanished-without-restrict" in hc:
+        if grouping and "filtered-type-present" in clauses:
+            # Groups created although the Group filter is KEEP_NONE: topology->grouping* are only initialised by
+            # hwloc_internal_distances_prepare(), which load() skips with HWLOC_TOPOLOGY_FLAG_NO_DISTANCES
+            key = "distances-add-no-distances-uninitialised-grouping"
+        elif grouping and "sets-missing" in clauses:
+            key = "group-by-distances-objects-without-cpuset"
+        elif grouping and "object-vanished-without-restrict" in hc:
             key = "group-by-distances-replaces-existing-group"
         elif grouping and ("total-memory" in clauses or "total_memory" in asrt):
             key = "group-by-distances-total-memory"
+        elif grouping and (any("nodeset" in c for c in clauses) or "nodeset" in asrt):
+            key = "group-by-distances-nodeset-inconsistent"
+        elif k == "group" and (clauses == ["children-order"] or (not clauses and "prev_first" in asrt)):
+            # cpuset-only Group in a topology with offline PUs: placed by cpuset, siblings are ordered by complete_cpuset
+            key = "group-by-cpuset-offline-pus-children-order"
         elif zeroed:
             key = "dontmerge-group-replace-returns-zeroed-object"
         elif k == "group" and ck.get("dm", "0") != "0" and ("sets-missing" in clauses or "complete_cpuset" in asrt):
@@ -167,6 +178,8 @@ def sanitizer_key(err, rc):
     frames = re.findall(r"#\d+ 0x[0-9a-f]+ in (hwloc_\w+)", err)
     if only_leaks(err):
         return "leak:%s" % (frames[-1] if frames else "unknown")
+    if "heap-buffer-overflow" in err and "hwloc__groups_by_distances" in err:
+        return "distances-add-no-distances-uninitialised-grouping"
     if "heap-use-after-free" in err and "cpukind" in err:
         return "cpukinds-restrict-stale-slot-use-after-free"      # C15 defect (patches/fix-C15-restrict-stale-slot.diff)
     ub = re.search(r"runtime error: ([^\n]{0,60})", err)
